@@ -1532,7 +1532,12 @@ func (s *Store) processLTXStreamFrame(ctx context.Context, frame *LTXStreamFrame
 
 	// Skip frame if it already occurred on this node. This can happen if the
 	// replica node created the transaction and forwarded it to the primary.
-	if hdr.NodeID == s.ID() {
+	//
+	// Only skip it if this node is still at or past that transaction. If the
+	// node has since been reset to an older position (e.g. by a snapshot from
+	// another primary that never received it) the file must be applied like
+	// any other or the node can never catch up.
+	if hdr.NodeID == s.ID() && db.Pos().TXID >= hdr.MaxTXID {
 		dec := ltx.NewDecoder(src)
 		if err := dec.Verify(); err != nil {
 			return fmt.Errorf("verify duplicate ltx file: %w", err)
